@@ -1,3 +1,344 @@
-/-! # C06 — property theorems (stub: not built yet) -/
+import PymtlVerif.Proofs.BitStructHeap
+/-!
+# C06 — bitstruct packing is a lossless, order-preserving bijection
+
+Property theorems about `Model/BitStruct.lean`, for every type shape (nested structs,
+multi-dimensional list fields) and every value. Helper lemmas: `Proofs/BitStruct.lean`,
+`Proofs/BitStructHeap.lean`.
+
+The statements are on the code-shaped face of the model — `nbitsPy` (the `start_bit` fold),
+`toBitsPy` (the flat `concat(...)` argument list through the `concat` of `Model/Bits.lean`),
+`fromBitsPy` (slices counted down from `total_nbits`) — and relate it to the structural
+specification `Ty.width` / `toBits` / `fromBits` in which the layout is stated.
+`slice p lo w` = bits `[lo, lo+w)` of `p`.
+-/
 namespace PV.C06
+open PV.BitStruct
+open PV.Bits (B Reg)
+
+/-! ## width -/
+
+/-- `cls.nbits` is the structural width, which is the sum of the leaf widths; the leaves of any value
+of the type have exactly these widths, in order -/
+theorem width (T : Ty) :
+    nbitsPy T = T.width ∧ T.width = T.leaves.sum ∧
+    ∀ v, HasTy v T → (leafVals v).map (·.1) = T.leaves ∧ (toBits v).1 = T.width :=
+  ⟨nbitsPy_eq T, width_eq_sum_leaves T, fun _ h => ⟨leafVals_widths h, toBits_width h⟩⟩
+
+/-! ## to_bits / from_bits -/
+
+/-- `to_bits()` returns a `Bits` of width `cls.nbits` holding the structural packing (which fits) -/
+theorem to_bits_spec {v : Val} {T : Ty} (h : HasTy v T) (h1 : 1 ≤ T.width) (h2 : T.width < 1024) :
+    toBitsPy v = .ok ⟨nbitsPy T, (toBits v).2⟩ ∧ (toBits v).2 < 2 ^ nbitsPy T := by
+  rw [nbitsPy_eq]
+  exact ⟨(toBitsPy_eq h).1 ⟨h1, h2⟩, toBits_lt h⟩
+
+/-- 1024 bits or more cannot be packed: `concat` raises ValueError (the stated bound of the property) -/
+theorem to_bits_too_wide {v : Val} {T : Ty} (h : HasTy v T) (h2 : T.width ≥ 1024) :
+    toBitsPy v = .error .range := (toBitsPy_eq h).2 (Or.inr h2)
+
+/-- `from_bits(to_bits(v)) == v` -/
+theorem from_to {v : Val} {T : Ty} (h : HasTy v T) (h1 : 1 ≤ T.width) (h2 : T.width < 1024) :
+    ∃ b, toBitsPy v = .ok b ∧ fromBitsPy T b = .ok v := by
+  refine ⟨⟨T.width, (toBits v).2⟩, (toBitsPy_eq h).1 ⟨h1, h2⟩, ?_⟩
+  rw [(fromBitsPy_eq T T.width _).1 rfl, PV.BitStruct.from_to h]
+
+/-- `to_bits(from_bits(b)) == b` for every `b : Bits(cls.nbits)`, and the result is a value of the type -/
+theorem to_from (T : Ty) (b : Nat) (hb : b < 2 ^ T.width) (h1 : 1 ≤ T.width) (h2 : T.width < 1024) :
+    ∃ v, fromBitsPy T ⟨nbitsPy T, b⟩ = .ok v ∧ HasTy v T ∧ toBitsPy v = .ok ⟨nbitsPy T, b⟩ := by
+  rw [nbitsPy_eq]
+  refine ⟨fromBits T b, (fromBitsPy_eq T T.width b).1 rfl, hasTy_fromBits T b, ?_⟩
+  rw [(toBitsPy_eq (hasTy_fromBits T b)).1 ⟨h1, h2⟩, PV.BitStruct.to_from T b hb]
+
+/-- a `Bits` of any other width is rejected by the assertion in `from_bits` -/
+theorem from_bits_width_mismatch (T : Ty) (n b : Nat) (h : n ≠ nbitsPy T) :
+    fromBitsPy T ⟨n, b⟩ = .error .assert := by
+  rw [nbitsPy_eq] at h
+  exact (fromBitsPy_eq T n b).2 h
+
+/-- the two directions together: `to_bits` is a bijection between the values of the type and `[0, 2^nbits)` -/
+theorem bijection (T : Ty) :
+    (∀ v, HasTy v T → (toBits v).2 < 2 ^ T.width ∧ fromBits T (toBits v).2 = v) ∧
+    (∀ b, b < 2 ^ T.width → HasTy (fromBits T b) T ∧ (toBits (fromBits T b)).2 = b) :=
+  ⟨fun _ h => ⟨toBits_lt h, PV.BitStruct.from_to h⟩,
+   fun b hb => ⟨hasTy_fromBits T b, PV.BitStruct.to_from T b hb⟩⟩
+
+/-! ## layout -/
+
+/-- field `i` of a struct occupies bits `[fieldOff T i, fieldOff T i + wᵢ)` of the packed value -/
+theorem layout_struct {v : Val} {T : Ty} (h : HasTy v T) (i : Nat) (f : Val) (F : Ty)
+    (hf : fieldVal v i = some f) (hF : fieldTy T i = some F) :
+    HasTy f F ∧ slice (toBits v).2 (fieldOff T i) F.width = (toBits f).2 :=
+  field_layout h i f F hf hF
+
+/-- … where `fieldOff T i = Σ_{j>i} wⱼ` (so the first field is the most significant) and `nbits = Σⱼ wⱼ` -/
+theorem layout_struct_offsets (T : Ty) (hT : T.IsRec) (i : Nat) (hi : i < (fieldTys T).length) :
+    fieldOff T i = (((fieldTys T).drop (i + 1)).map Ty.width).sum ∧
+    T.width = ((fieldTys T).map Ty.width).sum :=
+  fieldOff_sum T hT i hi
+
+/-- element `k` of a list field occupies bits `[k·w, (k+1)·w)` of the field's bits (element 0 least significant) -/
+theorem layout_list {v : Val} {T : Ty} {n : Nat} (h : HasTy v (.arr n T)) (k : Nat) (x : Val)
+    (hx : elemVal v k = some x) :
+    HasTy x T ∧ slice (toBits v).2 (k * T.width) T.width = (toBits x).2 :=
+  elem_layout h k x hx
+
+/-- the same two facts through the `Bits` model: slicing the `to_bits()` result with
+`[off : off + w]` gives the `to_bits()` of the field -/
+theorem layout_struct_getslice {v : Val} {T : Ty} (h : HasTy v T) (h1 : 1 ≤ T.width) (h2 : T.width < 1024)
+    (i : Nat) (f : Val) (F : Ty) (hf : fieldVal v i = some f) (hF : fieldTy T i = some F) (hF1 : 1 ≤ F.width) :
+    ∃ p q, toBitsPy v = .ok p ∧ toBitsPy f = .ok q ∧
+      PV.Bits.getSlice p (some (fieldOff T i : Int)) (some ((fieldOff T i + F.width : Nat) : Int)) none = .ok q := by
+  obtain ⟨hfF, hs⟩ := field_layout h i f F hf hF
+  have hle := fieldOff_le T i F hF
+  refine ⟨⟨T.width, (toBits v).2⟩, ⟨F.width, (toBits f).2⟩, (toBitsPy_eq h).1 ⟨h1, h2⟩,
+    (toBitsPy_eq hfF).1 ⟨hF1, by omega⟩, ?_⟩
+  rw [PV.C05.get_slice T.width _ (fieldOff T i) (fieldOff T i + F.width) (by omega) hle]
+  rw [← hs, slice_eq]; simp
+
+/-- … and `field[k]` of a list-typed value `v` is `v.to_bits()[k·w : (k+1)·w]` -/
+theorem layout_list_getslice {v : Val} {T : Ty} {n : Nat} (h : HasTy v (.arr n T))
+    (h1 : 1 ≤ T.width) (h2 : n * T.width < 1024) (k : Nat) (x : Val) (hx : elemVal v k = some x) :
+    ∃ p q, toBitsPy v = .ok p ∧ toBitsPy x = .ok q ∧
+      PV.Bits.getSlice p (some (k * T.width : Nat)) (some ((k * T.width + T.width : Nat) : Int)) none = .ok q := by
+  obtain ⟨hxT, hs⟩ := elem_layout h k x hx
+  have hk := elem_lt h k x hx
+  have hle : k * T.width + T.width ≤ n * T.width := by
+    have : (k + 1) * T.width ≤ n * T.width := Nat.mul_le_mul_right _ hk
+    rw [Nat.add_mul] at this; omega
+  have hn1 : 1 ≤ n * T.width := by omega
+  refine ⟨⟨n * T.width, (toBits v).2⟩, ⟨T.width, (toBits x).2⟩, (toBitsPy_eq h).1 ⟨hn1, h2⟩,
+    (toBitsPy_eq hxT).1 ⟨h1, by omega⟩, ?_⟩
+  rw [PV.C05.get_slice (n * T.width) _ (k * T.width) (k * T.width + T.width) (by omega) hle]
+  rw [← hs, slice_eq]; simp
+
+/-- all leaves at once: leaf `j` (canonical order) sits at offset `(leafOffs T 0)[j]` of the packed value -/
+theorem layout_leaves {v : Val} {T : Ty} (h : HasTy v T) :
+    LeavesAt (toBits v).2 (leafOffs T 0) (leafVals v) :=
+  leaf_layout_at h _ 0 (slice_zero_of_lt _ _ (toBits_lt h))
+
+/-! ## equality and hash -/
+
+/-- `==` between two instances of one class is equality of the field values, which is equality of
+the packed values; an instance of any other class is never equal -/
+theorem eq_iff_packed {v w : Val} {T : Ty} (hv : HasTy v T) (hw : HasTy w T) :
+    (eqCls true v w = true ↔ v = w) ∧ (eqCls true v w = true ↔ (toBits v).2 = (toBits w).2) ∧
+    eqCls false v w = false := by
+  refine ⟨by simp [eqCls, eqPy_iff], ?_, by simp [eqCls]⟩
+  rw [← eq_iff_bits hv hw]; simp [eqCls, eqPy_iff]
+
+/-- equal instances have equal hashes, whatever `hash(Bits)` and the tuple hash are -/
+theorem hash_respects_eq {α : Type} (hb : Nat → Nat → α) (ht : List α → α) (v w : Val) (h : eqPy v w = true) :
+    hashV hb ht v = hashV hb ht w := by
+  rw [(eqPy_iff v w).1 h]
+
+/-- `to_bits`, `==` and `hash` of an instance only look at the visible values of its leaves:
+they do not depend on which `Bits` objects hold them, nor on pending `_next` values -/
+theorem observers_depend_on_read (h h' : Heap) (i j : Inst) (hr : read h i = read h' j)
+    {α : Type} (hb : Nat → Nat → α) (ht : List α → α) :
+    toBitsPy (read h i) = toBitsPy (read h' j) ∧ hashV hb ht (read h i) = hashV hb ht (read h' j) ∧
+    ∀ w, eqPy (read h i) w = eqPy (read h' j) w := by
+  rw [hr]; exact ⟨rfl, rfl, fun _ => rfl⟩
+
+/-! ## copies: clone / deepcopy -/
+
+/-- `clone()` / `__deepcopy__`: the copy has the same visible value, all its leaf objects are new
+(ids not in use before, pairwise distinct, without `_next`), nothing that existed is modified -/
+theorem clone_spec (h : Heap) (i : Inst) (hin : InHeap h i) :
+    read (clone h i).1 (clone h i).2 = read h i ∧
+    (∀ c ∈ cells (clone h i).2, h.size ≤ c ∧ c < (clone h i).1.size) ∧
+    (cells (clone h i).2).Nodup ∧
+    (∀ c, c < h.size → (clone h i).1.cell c = h.cell c) ∧
+    (∀ c ∈ cells (clone h i).2, ((clone h i).1.cell c).next = none) ∧
+    (∀ j, InHeap h j → Disj (clone h i).2 j) := by
+  rw [clone_eq_build h i hin]
+  obtain ⟨f, r⟩ := build_spec h (read h i)
+  refine ⟨r, f.range, f.nodup, f.old, f.next_none, ?_⟩
+  intro j hj c hc hcj
+  have := (f.range c hc).1; have := hj c hcj; omega
+
+/-- a later write to any leaf of one of two instances without a common leaf is invisible through the other -/
+theorem write_independent (h : Heap) (a b : Inst) (hd : Disj a b) (c : Nat) (hc : c ∈ cells a) (r : Reg) :
+    read (h.upd c r) b = read h b :=
+  read_upd_of_not_mem h b c r (hd c hc)
+
+/-- copy and source are independent: mutate a leaf of the copy — the source still reads the same, and vice versa -/
+theorem clone_independent (h : Heap) (i : Inst) (hin : InHeap h i) :
+    (∀ c ∈ cells (clone h i).2, ∀ r, read ((clone h i).1.upd c r) i = read h i) ∧
+    (∀ c ∈ cells i, ∀ r, read ((clone h i).1.upd c r) (clone h i).2 = read h i) := by
+  obtain ⟨hr, _, _, hold, _, hdj⟩ := clone_spec h i hin
+  have hsrc : read (clone h i).1 i = read h i :=
+    read_congr _ _ _ (fun c hc => by rw [hold c (hin c hc)])
+  constructor
+  · intro c hc r
+    rw [write_independent _ _ _ (hdj i hin) c hc r, hsrc]
+  · intro c hc r
+    rw [write_independent _ _ _ (hdj i hin).symm c hc r, hr]
+
+/-! ## `@=` -/
+
+theorem imatmulSame_spec (h : Heap) (dst src : Inst) (hs : SameShape h dst src)
+    (nd : (cells dst).Nodup) (dj : Disj dst src) :
+    ∃ h', imatmulSame h dst src = .ok h' ∧ read h' dst = read h src ∧ read h' src = read h src ∧
+      h'.size = h.size ∧ (∀ c, c ∉ cells dst → h'.cell c = h.cell c) ∧
+      (∀ c, (h'.cell c).next = (h.cell c).next) := by
+  obtain ⟨h', e, sz, fr, _, m⟩ := zipWithM_spec leafAssign gAssign
+    (fun h d s hn => leafAssign_ok h d s hn) (fun _ _ => rfl) dst src h hs nd dj
+  refine ⟨h', e, read_of_matched_assign h h' dst src hs m, ?_, sz, fr, ?_⟩
+  · exact read_congr _ _ _ (fun c hc => by rw [fr c (fun hd => dj c hd hc)])
+  · intro c
+    by_cases hc : c ∈ cells dst
+    · exact matched_forall gAssign (fun r' r => r'.next = r.next) (fun _ _ => rfl) h h' dst src m c hc
+    · rw [fr c hc]
+
+/-- `dst @= src`, same class: the new value is visible at once, `src` is untouched, nothing else
+changes, and no leaf object becomes shared: a later write to either side is invisible through the other -/
+theorem assign_no_alias (T : Ty) (h : Heap) (dst src : Inst)
+    (hd : HasTy (read h dst) T) (hs : HasTy (read h src) T) (nd : (cells dst).Nodup) (dj : Disj dst src) :
+    ∃ h', imatmul T true h dst src = .ok h' ∧ read h' dst = read h src ∧ read h' src = read h src ∧
+      (∀ c, c ∉ cells dst → h'.cell c = h.cell c) ∧
+      (∀ c, (h'.cell c).next = (h.cell c).next) ∧
+      (∀ c ∈ cells dst, ∀ r, read (h'.upd c r) src = read h src) ∧
+      (∀ c ∈ cells src, ∀ r, read (h'.upd c r) dst = read h src) := by
+  obtain ⟨h', e, r1, r2, _, fr, nx⟩ := imatmulSame_spec h dst src (sameShape_of_hasTy h dst src hd hs) nd dj
+  refine ⟨h', by simp [imatmul, e], r1, r2, fr, nx, ?_, ?_⟩
+  · intro c hc r; rw [write_independent _ _ _ dj c hc r, r2]
+  · intro c hc r; rw [write_independent _ _ _ dj.symm c hc r, r1]
+
+theorem convert_ok (T U : Ty) (h : Heap) (src : Inst) (hs : HasTy (read h src) U) (hw : U.width = T.width)
+    (h1 : 1 ≤ T.width) (h2 : T.width < 1024) :
+    convert T h src = .ok (build h (fromBits T (toBits (read h src)).2)) := by
+  have e1 := (toBitsPy_eq hs).1 ⟨by omega, by omega⟩
+  have e2 := (fromBitsPy_eq T U.width (toBits (read h src)).2).1 hw
+  simp [convert, e1, e2]
+
+/-- `dst @= src` with `src` of another class (or a `Bits`) of the same width: `dst` receives
+`from_bits(src.to_bits())` — same packed value — `src` and everything else is untouched, and no leaf
+object of `dst` is shared with anything that existed -/
+theorem assign_cross_class (T U : Ty) (h : Heap) (dst src : Inst)
+    (hd : HasTy (read h dst) T) (hs : HasTy (read h src) U) (hw : U.width = T.width)
+    (h1 : 1 ≤ T.width) (h2 : T.width < 1024) (nd : (cells dst).Nodup) (hin : InHeap h dst) :
+    ∃ h', imatmul T false h dst src = .ok h' ∧
+      read h' dst = fromBits T (toBits (read h src)).2 ∧
+      (toBits (read h' dst)).2 = (toBits (read h src)).2 ∧
+      (∀ c, c ∉ cells dst → c < h.size → h'.cell c = h.cell c) := by
+  have hc := convert_ok T U h src hs hw h1 h2
+  obtain ⟨f, r⟩ := build_spec h (fromBits T (toBits (read h src)).2)
+  generalize hbd : build h (fromBits T (toBits (read h src)).2) = bd at hc f r
+  obtain ⟨hp, tmp⟩ := bd
+  simp only at f r
+  have hdst : read hp dst = read h dst := read_congr _ _ _ (fun c hc => by rw [f.old c (hin c hc)])
+  have dj : Disj dst tmp := fun c hc ht => by
+    have := (f.range c ht).1; have := hin c hc; omega
+  have hsh : SameShape hp dst tmp :=
+    sameShape_of_hasTy hp dst tmp (T := T) (by rw [hdst]; exact hd) (by rw [r]; exact hasTy_fromBits T _)
+  obtain ⟨h', e, r1, _, _, fr, _⟩ := imatmulSame_spec hp dst tmp hsh nd dj
+  have hlt : (toBits (read h src)).2 < 2 ^ T.width := by rw [← hw]; exact toBits_lt hs
+  refine ⟨h', by simp [imatmul, hc, e], by rw [r1, r], ?_, ?_⟩
+  · rw [r1, r, PV.BitStruct.to_from T _ hlt]
+  · intro c hc hlt; rw [fr c hc, f.old c hlt]
+
+/-- cross-class assignment between two classes of the *same shape* copies the value unchanged -/
+theorem assign_cross_same_shape (T : Ty) (h : Heap) (src : Inst) (hs : HasTy (read h src) T) :
+    fromBits T (toBits (read h src)).2 = read h src := PV.BitStruct.from_to hs
+
+/-- an operand of a different width fails the `from_bits` assertion -/
+theorem assign_cross_width_mismatch (T U : Ty) (h : Heap) (dst src : Inst) (hs : HasTy (read h src) U)
+    (hw : U.width ≠ T.width) (h1 : 1 ≤ U.width) (h2 : U.width < 1024) :
+    imatmul T false h dst src = .error .assert ∧ ilshift T false h dst src = .error .assert := by
+  have e1 := (toBitsPy_eq hs).1 ⟨h1, h2⟩
+  have e2 := (fromBitsPy_eq T U.width (toBits (read h src)).2).2 hw
+  simp [imatmul, ilshift, convert, e1, e2]
+
+/-! ## `<<=` and `_flip` -/
+
+theorem ilshiftSame_spec (h : Heap) (dst src : Inst) (hs : SameShape h dst src)
+    (nd : (cells dst).Nodup) (dj : Disj dst src) :
+    ∃ h', ilshiftSame h dst src = .ok h' ∧ (∀ c, (h'.cell c).cur = (h.cell c).cur) ∧
+      readNext h' dst = some (read h src) ∧ h'.size = h.size ∧ (∀ c, c ∉ cells dst → h'.cell c = h.cell c) := by
+  obtain ⟨h', e, sz, fr, _, m⟩ := zipWithM_spec leafNb gNb
+    (fun h d s hn => leafNb_ok h d s hn) (fun _ _ => rfl) dst src h hs nd dj
+  refine ⟨h', e, ?_, readNext_of_matched_nb h h' dst src hs m, sz, fr⟩
+  intro c
+  by_cases hc : c ∈ cells dst
+  · exact matched_forall gNb (fun r' r => r'.cur = r.cur) (fun _ _ => rfl) h h' dst src m c hc
+  · rw [fr c hc]
+
+/-- `dst <<= src`, same class: no visible value of any object changes (`dst` included); the value of
+`src` at this moment is what is pending in `dst` -/
+theorem nb_assign (T : Ty) (h : Heap) (dst src : Inst)
+    (hd : HasTy (read h dst) T) (hs : HasTy (read h src) T) (nd : (cells dst).Nodup) (dj : Disj dst src) :
+    ∃ h', ilshift T true h dst src = .ok h' ∧ (∀ i, read h' i = read h i) ∧
+      readNext h' dst = some (read h src) ∧ (∀ c, c ∉ cells dst → h'.cell c = h.cell c) := by
+  obtain ⟨h', e, cu, rn, _, fr⟩ := ilshiftSame_spec h dst src (sameShape_of_hasTy h dst src hd hs) nd dj
+  exact ⟨h', by simp [ilshift, e], fun i => read_congr _ _ _ (fun c _ => cu c), rn, fr⟩
+
+/-- `_flip()` makes the pending value visible — whatever happened to the visible values in between
+(`h2` is any later heap in which the pending values and widths of `dst`'s leaves are as `<<=` left
+them, e.g. after `src` was overwritten) — and touches nothing else -/
+theorem flip_pending (h' h2 : Heap) (dst : Inst) (v : Val) (hp : readNext h' dst = some v) (nd : (cells dst).Nodup)
+    (hk : ∀ c ∈ cells dst, (h2.cell c).next = (h'.cell c).next ∧ (h2.cell c).cur.n = (h'.cell c).cur.n) :
+    ∃ h3, flip h2 dst = .ok h3 ∧ read h3 dst = v ∧ (∀ c, c ∉ cells dst → h3.cell c = h2.cell c) ∧
+      (∀ j, Disj dst j → read h3 j = read h2 j) := by
+  have hp2 : readNext h2 dst = some v := by rw [readNext_congr h' h2 dst hk]; exact hp
+  obtain ⟨h3, e, r, _, fr, _⟩ := PV.BitStruct.flip_spec dst h2 v hp2 nd
+  refine ⟨h3, e, r, fr, ?_⟩
+  intro j hj
+  exact read_congr _ _ _ (fun c hc => by rw [fr c (fun hd => hj c hd hc)])
+
+/-- `dst <<= src` then `dst._flip()`: `dst` is unchanged until the flip, afterwards it equals the old `src` -/
+theorem nb_assign_then_flip (T : Ty) (h : Heap) (dst src : Inst)
+    (hd : HasTy (read h dst) T) (hs : HasTy (read h src) T) (nd : (cells dst).Nodup) (dj : Disj dst src) :
+    ∃ h' h3, ilshift T true h dst src = .ok h' ∧ read h' dst = read h dst ∧
+      flip h' dst = .ok h3 ∧ read h3 dst = read h src ∧ read h3 src = read h src := by
+  obtain ⟨h', e, rd, rn, _⟩ := nb_assign T h dst src hd hs nd dj
+  obtain ⟨h3, e3, r3, _, fj⟩ := flip_pending h' h' dst _ rn nd (fun _ _ => ⟨rfl, rfl⟩)
+  exact ⟨h', h3, e, rd dst, e3, r3, by rw [fj src dj, rd src]⟩
+
+/-- `dst <<= src` with `src` of another class of the same width: pending value = `from_bits(src.to_bits())` -/
+theorem nb_assign_cross_class (T U : Ty) (h : Heap) (dst src : Inst)
+    (hd : HasTy (read h dst) T) (hs : HasTy (read h src) U) (hw : U.width = T.width)
+    (h1 : 1 ≤ T.width) (h2 : T.width < 1024) (nd : (cells dst).Nodup) (hin : InHeap h dst) :
+    ∃ h', ilshift T false h dst src = .ok h' ∧ (∀ i, InHeap h i → read h' i = read h i) ∧
+      readNext h' dst = some (fromBits T (toBits (read h src)).2) := by
+  have hc := convert_ok T U h src hs hw h1 h2
+  obtain ⟨f, r⟩ := build_spec h (fromBits T (toBits (read h src)).2)
+  generalize hbd : build h (fromBits T (toBits (read h src)).2) = bd at hc f r
+  obtain ⟨hp, tmp⟩ := bd
+  simp only at f r
+  have hdst : read hp dst = read h dst := read_congr _ _ _ (fun c hc => by rw [f.old c (hin c hc)])
+  have dj : Disj dst tmp := fun c hc ht => by
+    have := (f.range c ht).1; have := hin c hc; omega
+  have hsh : SameShape hp dst tmp :=
+    sameShape_of_hasTy hp dst tmp (T := T) (by rw [hdst]; exact hd) (by rw [r]; exact hasTy_fromBits T _)
+  obtain ⟨h', e, cu, rn, _, _⟩ := ilshiftSame_spec hp dst tmp hsh nd dj
+  refine ⟨h', by simp [ilshift, hc, e], ?_, by rw [rn, r]⟩
+  intro i hi
+  exact read_congr _ _ _ (fun c hc => by rw [cu c, f.old c (hi c hc)])
+
+/-- `_flip()` of an instance with a leaf that was never `<<=`-assigned raises AttributeError -/
+theorem flip_unset (h : Heap) (c : Nat) (hn : (h.cell c).next = none) : flip h (.leaf c) = .error .attr := by
+  simp only [PV.BitStruct.flip]; exact leafFlip_err h c hn
+
+/-! ## non-vacuity -/
+
+/-- `struct { a:Bits4; l:[Bits2]*2; c:Bits1 }`, value a=0xA, l=[1,2], c=1 -/
+def exT : Ty := .pair (.bits 4) (.pair (.arr 2 (.bits 2)) (.pair (.bits 1) .unit))
+def exV : Val := .pair (.bits 4 10) (.pair (.acons (.bits 2 1) (.acons (.bits 2 2) .anil)) (.pair (.bits 1 1) .unit))
+
+example : hasTy exV exT = true := by decide
+example : nbitsPy exT = 9 := by decide
+-- 1010 | 10 01 | 1  : first field on top, l[1] above l[0]
+example : toBitsPy exV = .ok ⟨9, 0b101010011⟩ := by decide
+example : fromBitsPy exT ⟨9, 0b101010011⟩ = .ok exV := by decide
+example : fromBitsPy exT ⟨8, 0⟩ = .error .assert := by decide
+example : leafOffs exT 0 = [(5, 4), (1, 2), (3, 2), (0, 1)] := by decide
+example : fieldOff exT 0 = 5 ∧ fieldOff exT 1 = 1 ∧ fieldOff exT 2 = 0 := by decide
+example : eqCls true exV exV = true ∧ eqCls false exV exV = false := by decide
+
+/-- aliasing is expressible in the model: a write through a shared leaf *is* visible (so the
+independence theorems above are not vacuous) -/
+example : read ((Heap.empty.alloc ⟨⟨4, 3⟩, none⟩).1.upd 0 ⟨⟨4, 9⟩, none⟩) (.leaf 0) = .bits 4 9 := by
+  simp [PV.BitStruct.read, Heap.upd]
+
 end PV.C06
